@@ -44,7 +44,12 @@ Definition bad_vars : list vars :=
 Definition odd_vars : list vars :=
   [ [(B"a", VDate 2023 4 31)]; [(B"a", VDate 2023 2 30)]; [(B"a", VDate 2023 2 29)];
     [(B"a", VNum (mkNum [] [] true (BPlain 10) FAuto true))];
-    [(B"a", VNum (num_with (Large [5; 0]) (Large [1; 0; 0]) (BPlain 10)))] ].
+    [(B"a", VNum (num_with (Large [5; 0]) (Large [1; 0; 0]) (BPlain 10)))];
+    (* {1+i, 2, 3, 4, 5}: legitimate, but printing a / a trips the sort in Dist::format
+       (finding C14 dist_sort_not_total_order) *)
+    [(B"a", VNum (mkNum ((mkC (RSimple (q_int 1)) (RSimple (q_int 1)), mkRat SPos (Small 1) (Small 5)) ::
+                         map (fun k => (c_int k, mkRat SPos (Small 1) (Small 5))) [2; 3; 4; 5])
+                        [] true (BPlain 10) FAuto true))] ].
 
 (* byte strings the checks replay on every run: the images above, the
    non-well-formed maps as the writer would emit them, the two values that
